@@ -600,6 +600,7 @@ func (mc *ModbusClient) WriteCoil(addr uint16, value bool) (err error) {
 		   // bytes 3-4 should either be {0xff, 0x00} or {0x00, 0x00}
 		   // depending on the coil value
 		   (value == true && res.payload[2] != 0xff) ||
+		   (value == false && res.payload[2] != 0x00) ||
 		   res.payload[3] != 0x00 {
 			   err = ErrProtocolError
 			   return
